@@ -274,3 +274,82 @@ Proof.
     cbn [last_by]. rewrite (IH Hr). apply negb_true_iff in Hy. rewrite Hy. reflexivity. }
   rewrite G, str_eqb_refl. reflexivity.
 Qed.
+
+(* ---------- schedules, gaps and thermal bridges carry the written values ---------- *)
+(* DAY-SCHEDULE-PD: the kind and the 24 (or 1) hourly values written come back in order *)
+Theorem day_schedule_recovered b kt k lead trail g1 g2 ts :
+  get_text "TYPE" (b_attrs b) = Some kt -> skind_of kt = Some k ->
+  forallb (N.eqb 32) lead = true -> forallb (N.eqb 32) trail = true -> all_wsb g1 = true -> all_wsb g2 = true ->
+  forallb num_item_ok ts = true -> (List.length ts = 24%nat \/ List.length ts = 1%nat) ->
+  get_text "VALUES" (b_attrs b) = Some (list_text lead trail g1 g2 ts) ->
+  day_of b = Ok (TDay (squeeze2 (b_name b)) k ts).
+Proof.
+  intros Ht Hk A1 A2 A3 A4 Hts Hlen Hv.
+  assert (Hne : ts <> []) by (destruct ts; [destruct Hlen; discriminate | discriminate]).
+  unfold day_of, kind_of. rewrite Ht, Hk, Hv.
+  rewrite (number_list_recovered lead trail g1 g2 ts A1 A2 A3 A4 Hne Hts).
+  unfold len_1_or. destruct Hlen as [H|H]; rewrite H; reflexivity.
+Qed.
+
+(* WEEK-SCHEDULE-PD: the seven (or one) daily schedules named come back in order *)
+Theorem week_schedule_recovered b kt k lead trail g1 g2 ns :
+  get_text "TYPE" (b_attrs b) = Some kt -> skind_of kt = Some k ->
+  forallb (N.eqb 32) lead = true -> forallb (N.eqb 32) trail = true -> all_wsb g1 = true -> all_wsb g2 = true ->
+  forallb name_item_ok ns = true -> (List.length ns = 7%nat \/ List.length ns = 1%nat) ->
+  get_text "DAY-SCHEDULES" (b_attrs b) = Some (list_text lead trail g1 g2 (map quoted ns)) ->
+  week_of b = Ok (TWeek (squeeze2 (b_name b)) k ns).
+Proof.
+  intros Ht Hk A1 A2 A3 A4 Hns Hlen Hv.
+  unfold week_of, kind_of. rewrite Ht, Hk, Hv.
+  rewrite (names_list_recovered lead trail g1 g2 ns A1 A2 A3 A4 Hns).
+  unfold len_1_or. destruct Hlen as [H|H]; rewrite H; reflexivity.
+Qed.
+(* a week of any other length is rejected *)
+Theorem week_schedule_length b kt k lead trail g1 g2 ns :
+  get_text "TYPE" (b_attrs b) = Some kt -> skind_of kt = Some k ->
+  forallb (N.eqb 32) lead = true -> forallb (N.eqb 32) trail = true -> all_wsb g1 = true -> all_wsb g2 = true ->
+  forallb name_item_ok ns = true -> List.length ns <> 7%nat -> List.length ns <> 1%nat ->
+  get_text "DAY-SCHEDULES" (b_attrs b) = Some (list_text lead trail g1 g2 (map quoted ns)) ->
+  week_of b = Err 10.
+Proof.
+  intros Ht Hk A1 A2 A3 A4 Hns H7 H1 Hv.
+  unfold week_of, kind_of. rewrite Ht, Hk, Hv.
+  rewrite (names_list_recovered lead trail g1 g2 ns A1 A2 A3 A4 Hns).
+  unfold len_1_or. apply Nat.eqb_neq in H7. apply Nat.eqb_neq in H1. rewrite H7, H1. reflexivity.
+Qed.
+
+(* GAP: every written value reaches its field; the documented defaults apply to the three optional ones *)
+Theorem gap_recovered b g gg f fg p i :
+  get_text "GLASS-TYPE" (b_attrs b) = Some g -> get_text "GROUP-GLASS" (b_attrs b) = Some gg ->
+  get_text "NAME-FRAME" (b_attrs b) = Some f -> get_text "GROUP-FRAME" (b_attrs b) = Some fg ->
+  get_num "PORCENTAGE" (b_attrs b) = Some p -> get_num "INF-COEF" (b_attrs b) = Some i ->
+  exists w, wincons_of b = Ok w /\ twn_name w = b_name b /\ twn_glass w = g /\ twn_glassgroup w = gg /\ twn_frame w = f /\
+            twn_framegroup w = fg /\ twn_percentage w = p /\ twn_infcoeff w = i /\
+            twn_group w = match get_text "GROUP" (b_attrs b) with Some x => x | None => s2l "Ventanas" end /\
+            twn_deltau w = num_or (get_num "porcentajeIncrementoU" (b_attrs b)) 0 /\
+            twn_gglshwi w = get_num "TransmisividadJulio" (b_attrs b).
+Proof.
+  intros H1 H2 H3 H4 H5 H6. unfold wincons_of. rewrite H1, H2, H3, H4, H5, H6. eexists. repeat split.
+Qed.
+
+(* THERMAL-BRIDGE defined by the user (DEFINICION = 2) or in an old LIDER file (no DEFINICION): length, psi,
+   f_Rsi and, for the kinds that have one, the geometry of the junction are the written ones; no catalogue data *)
+Theorem bridge_user_defined b psi frsi :
+  str_eqb (b_name b) (s2l "LONGITUDES_CALCULADAS") = false ->
+  get_num "TTL" (b_attrs b) = Some psi -> get_num "FRSI" (b_attrs b) = Some frsi ->
+  (get_num "DEFINICION" (b_attrs b) = None \/ exists d, get_num "DEFINICION" (b_attrs b) = Some d /\ trunc_tok d = 2%Z) ->
+  forall ty mn mx pa, get_text "TYPE" (b_attrs b) = Some ty ->
+  str_eqb ty (s2l "WINDOW-FRAME") = false -> str_eqb ty (s2l "PILLAR") = false -> is_empty ty = false ->
+  get_num "ANGLE-MIN" (b_attrs b) = Some mn -> get_num "ANGLE-MAX" (b_attrs b) = Some mx -> get_text "PARTITION" (b_attrs b) = Some pa ->
+  tb_of b = Ok (mkTBr (b_name b) (get_num "LONG-TOTAL" (b_attrs b)) ty (NTok psi) (NTok frsi) (Some (mn, mx, pa)) None).
+Proof.
+  intros Hn Hp Hf Hd ty mn mx pa Hty N1 N2 N3 Hmn Hmx Hpa.
+  unfold tb_of. rewrite Hn, Hp, Hf, Hty, N1, N2, N3, Hmn, Hmx, Hpa. cbn [orb].
+  destruct Hd as [Hd | [d [Hd Hk]]]; rewrite Hd; [reflexivity|]. rewrite Hk. reflexivity.
+Qed.
+(* the measured-lengths block carries no psi of its own *)
+Theorem bridge_lengths_block b :
+  str_eqb (b_name b) (s2l "LONGITUDES_CALCULADAS") = true -> get_text "TYPE" (b_attrs b) = None ->
+  get_num "DEFINICION" (b_attrs b) = None ->
+  tb_of b = Ok (mkTBr (b_name b) (get_num "LONG-TOTAL" (b_attrs b)) [] (NConst 0) (NConst 0) None None).
+Proof. intros Hn Ht Hd. unfold tb_of. rewrite Hn, Ht, Hd. reflexivity. Qed.
